@@ -19,7 +19,8 @@ PROPERTY = "C08"
 LEVEL = "exploration"
 RULE = (
     "Hypothesis-generated (type, pattern text, culture) over 7 pattern classes: grammar output, single and double "
-    "edits (drop/insert/duplicate, unbalanced quote, trailing escape, %, <>), standard letters and unstructured "
+    "edits (drop/insert/duplicate, unbalanced quote, trailing escape, %, <>), embedded ld<>/lt<> patterns incl. ones "
+    "with a loose field of the same kind (contradictory digit runs swept), standard letters and unstructured "
     "strings; for each created pattern, input texts = format(value) and mutations (delete, transpose, replace by "
     "digit/sign/letter/NUL/non-ASCII digit/combining mark, out-of-range digit runs, 40-digit runs, empty, whitespace, "
     "10 kB). Non-trivial: a malformed pattern, or a text that is not the pristine formatted text. Distinct = case hash."
@@ -36,6 +37,12 @@ PARSE_PANEL = {
     "annual": ["MM'-'dd", "G", "MMMM d", "d MMM", "M/d"],
 }
 CULTURES_FIXED = ["", "en-US", "fr-FR", "de-DE", "ar-SA", "he-IL", "fa-IR", "th-TH", "ja-JP", "ru-RU", "tr-TR", "dav", "vi-VN", "hi-IN", "el-GR"]
+
+
+import re
+
+_REPEATED = re.compile(r"([yuMdHhms])\1*[^A-Za-z<>]+(?:.*[^A-Za-z])?\1")  # the same numeric field letter twice, apart
+_EMBEDDED_STD = re.compile(r"<%?[A-Za-z]>")  # an embedded standard pattern (may expand to a text-month pattern)
 
 
 def need(cond: bool, sig: str, msg: str = "") -> None:
@@ -169,7 +176,7 @@ def _k_parse(c) -> CaseInfo:
     tmpl = c.get("template")
     if tmpl is not None and not T.value_in_domain(t, tmpl):
         raise InvalidCase
-    if tmpl is not None and t in ("date", "datetime") and (len(pattern) == 1 or "MMM" in pattern):
+    if tmpl is not None and t in ("date", "datetime") and (len(pattern) == 1 or "MMM" in pattern or _EMBEDDED_STD.search(pattern)):
         # text-month fields are only paired with months 1-12 (the culture tables have 12/13 entries; see C07)
         if T.make_value(t, tmpl).month > 12:
             raise InvalidCase
@@ -230,7 +237,12 @@ def task_hyp(ctx: Ctx, shard: int, n: int) -> None:
                 cc = _pyo.cal(v["cal"])
                 v = {"cal": v["cal"], "n": cc._max_days if panel_ix % 2 else cc._min_days, "ns": 0}
         for pattern in (panel[panel_ix % len(panel)], pat_valid, pat_any):
-            case = {"type": t, "pattern": pattern, "culture": cname, "value": v, "muts": [list(x) for x in m], "extra": extra}
+            mm = [list(x) for x in m]
+            if "<" in pattern or _REPEATED.search(pattern):
+                # a field stated twice (loose next to an embedded pattern, or repeated) is an invalid pattern; should one
+                # be accepted, the two copies can contradict each other: sweep out-of-step values over every digit run
+                mm += [[4, pos, arg] for pos in (0, 3, 5, 8, 11, 14, 17, 20) for arg in (4, 5, 10, 11, 12)]
+            case = {"type": t, "pattern": pattern, "culture": cname, "value": v, "muts": mm, "extra": extra}
             if use_tmpl:
                 case["template"] = tmpl
             ctx.case("parse", case)
